@@ -32,11 +32,18 @@ def main():
     proof_ok = True
     broken = []
     # 1. translator (tables -> Generated.v)
-    rc, msg = run_translator()
+    tstatus, msg = run_translator()
     cov["translator"] = msg
-    if rc != 0:
+    # only the translators this property's theorems depend on (through Generated*.v) are its obligations
+    mine = translators_for(mod.PROPERTIES_FILE)
+    if mine is None:
+        mine = list(tstatus)
+    mine = sorted(set(mine) | set(getattr(mod, "TRANSLATORS", [])))
+    cov["translators_of_this_property"] = mine
+    failed = [t for t in mine if tstatus.get(t, 0) != 0]
+    if failed:
         proof_ok = False
-        broken.append("translator: " + msg)
+        broken.append("translator failed closed: " + ", ".join(failed) + " :: " + msg)
     # 2. proof obligations
     ok, log = coq_build([mod.PROPERTIES_FILE] + list(getattr(mod, "EXTRA_COQ_TARGETS", [])))
     if not ok:
@@ -67,7 +74,9 @@ def main():
         # the harness no longer builds against the tree: the tie cannot be established
         out.violation("harness-build", "harness does not build against the current tree", {"broken": "harness build", "detail": str(e)[-3000:], "no_failing_input_found": True})
         cov.setdefault("evaluations", 0)
-    if not proof_ok and not out.violations:
+    fresh_found = [v for v in out.violations if v[0] not in open_signatures(prop)]
+    if not proof_ok and not fresh_found:
+        # a reproduced KNOWN finding is not the failing input of a newly broken obligation
         out.violation("proof-broken", "proof obligation no longer checks and no failing input was found",
                       {"broken": broken, "no_failing_input_found": True})
     elif not proof_ok:
